@@ -16,7 +16,8 @@ RULE = (
     "encoder in the other documented word sizes (1/2/8-byte row-id words, index words wider than needed), because a "
     "reader may treat non-32-bit row ids on a separate path. cuts_many_entries: files with 1 023 .. 4 097 (thorough 8 192) "
     "entries, where a reader may switch to a bulk path; the cut points are SAMPLED there (last 48 bytes, 12 bytes around "
-    "every section boundary, every 101st byte) because each load parses thousands of coordinates."
+    "every section boundary, every 101st byte) because each load parses thousands of coordinates. cuts_big_entries: independent-encoder files with one entry of "
+    "200 .. 70 000 row ids in each row-id word size (around 2^15 / 2^16 for 2-byte words), cuts sampled likewise."
 )
 ASSUMPTIONS = [
     "a torn write leaves a strict prefix of the intended file (the fault model of the property)",
@@ -150,7 +151,64 @@ def check_sampled_cuts(case, rec):
     rec.nontrivial_enum()
 
 
+def enum_big_entries(tier, shard, nshards):
+    """One very long entry in each documented row-id word size (lengths around 2^15 / 2^16 for 2-byte words, 40 000 and
+    70 000 for 4- and 8-byte words, 200 / 255 for 1-byte words) next to a short one; cut points sampled."""
+    i = 0
+    plans = [(1, 200), (1, 255), (2, 32767), (2, 32768), (2, 40000), (2, 65535), (4, 40000), (4, 70000), (8, 40000)]
+    for rw, n in plans:
+        for first in (True, False):
+            if i % nshards == shard:
+                big = [[7], list(range(n))]
+                small = [[2], [0, 3]]
+                yield {"common": 0, "arity": 1, "entries": [big, small] if first else [small, big], "iw": 1, "rw": rw,
+                       "layout": "plain"}
+            i += 1
+
+
+def check_big_entries(case, rec):
+    from catii.indxio import IndxIO
+
+    from .. import indxref as R
+
+    data = R.ref_encode(G.case_list(case), case["common"], iw=case["iw"], rw=case["rw"])
+    path = os.path.join(G.scratch_dir(), "c12b.indx")
+    with open(path, "wb") as f:
+        f.write(data)
+    n = len(data)
+    with open(path, "rb") as f:
+        with libcall("IndxIO.load(complete reference file, one entry of %d row ids, rw=%d)" % (
+                max(len(r) for _, r in case["entries"]), case["rw"])):
+            IndxIO.load(f)
+    ne = len(case["entries"])
+    index_end = 16 + 1 + 4 + 1 + case["iw"] + case["iw"] * case["arity"] * ne
+    lengths_end = index_end + 1 + case["rw"] * ne
+    cuts = set(range(max(0, n - 64), n)) | set(range(0, n, 1009)) | set(range(n - 1, max(0, n - 70000), -4093))
+    for b in (16, index_end, lengths_end):
+        cuts |= set(range(max(0, b - 6), min(n, b + 6)))
+    with open(path, "r+b") as f:
+        for k in sorted(cuts, reverse=True):
+            os.ftruncate(f.fileno(), k)
+            f.seek(0)
+            try:
+                out = IndxIO.load(f)
+            except Exception:
+                continue
+            desc = "%d entries" % len(out[0]) if isinstance(out, tuple) else repr(out)
+            del out
+            raise Violation("load() of the first %d of %d bytes of a file with an entry of %d row ids (%d-byte words) "
+                            "returned (%s) instead of raising" % (k, n, max(len(r) for _, r in case["entries"]),
+                                                                  case["rw"], desc),
+                            sig="torn file with a very long entry accepted (rw=%d)" % case["rw"])
+    rec.count("torn_loads", len(cuts))
+    rec.note("rw=%d" % case["rw"])
+    rec.evaluations += len(cuts) - 1
+    rec.nontrivial_enum()
+
+
 SUBS = [
+    Sub("cuts_big_entries", check_big_entries, enumerate=enum_big_entries, exhaustive=False,
+        shards={"quick": 6, "thorough": 6}),
     Sub("cuts_many_entries", check_sampled_cuts, enumerate=enum_many_entries, exhaustive=False,
         shards={"quick": 8, "thorough": 16}),
     Sub("cuts_other_words", check_other_words, strategy=other_word_cases,
